@@ -52,38 +52,50 @@ def result_uses(F, b):
         if l == 0:
             out.append(dict(site=s, callee=n, verdict="propagated", detail="returned"))
             continue
-        uses = _uses_of(b, l, s)
-        verdicts = []
-        for kind, us, info in uses:
-            if kind == "call-arg":
-                un = callee_name(info["callee"])
-                ul = un.rsplit("::", 1)[-1]
-                if ul in FORWARD or ul == "Some" or un.endswith("::Ok"):
-                    verdicts.append(("propagated", f"forwarded to {ul}"))
-                elif ul in PANICKY:
-                    verdicts.append(("unwrap", f"{ul}() on a component result"))
-                elif ul in DISCARD:
-                    verdicts.append(("discarded", f"{ul}() discards the error"))
-                elif info["argi"] > 0 or info["callee"] is None:
-                    verdicts.append(("propagated", f"passed on to {ul}"))
-                else:
-                    verdicts.append(("unrecognised", f"consumed by {un}"))
-            elif kind == "return":
-                verdicts.append(("propagated", "returned"))
-            elif kind == "discr":
-                verdicts.append(_match_verdict(b, us, l))
-            elif kind == "moved":
-                verdicts.append(("propagated", "moved into a value that is returned/forwarded") if info else ("unrecognised", "moved"))
-        if any(v[0] != "no-switch" for v in verdicts):
-            verdicts = [v for v in verdicts if v[0] != "no-switch"]
-        else:
-            verdicts = [("unrecognised", v[1]) for v in verdicts]
-        if not verdicts:
-            out.append(dict(site=s, callee=n, verdict="dropped", detail="the Result is never looked at (let _ = .. / statement expression)"))
-            continue
-        worst = sorted(verdicts, key=lambda v: ["unwrap", "err-arm-panics", "dropped", "discarded", "err-arm-swallowed", "unrecognised", "stored", "propagated"].index(v[0]))[0]
-        out.append(dict(site=s, callee=n, verdict=worst[0], detail=worst[1]))
+        v, detail = _consume(b, l, s, 0)
+        out.append(dict(site=s, callee=n, verdict=v, detail=detail))
     return out
+
+
+ORDER = ["unwrap", "err-arm-panics", "dropped", "discarded", "err-arm-swallowed", "unrecognised", "stored", "propagated"]
+
+
+def _consume(b, l, def_site, depth):
+    """how the Result held in local `l` (defined at def_site) is consumed: (verdict, detail)"""
+    if depth > 8:
+        return "unrecognised", "too deep"
+    if l == 0:
+        return "propagated", "returned"
+    uses = _uses_of(b, l, def_site)
+    verdicts = []
+    for kind, us, info in uses:
+        if kind == "call-arg":
+            un = callee_name(info["callee"])
+            ul = un.rsplit("::", 1)[-1]
+            if ul in FORWARD or ul == "Some" or un.endswith("::Ok"):
+                verdicts.append(("propagated", f"forwarded to {ul}"))
+            elif ul in PANICKY:
+                verdicts.append(("unwrap", f"{ul}() on a component result"))
+            elif ul in DISCARD:
+                verdicts.append(("discarded", f"{ul}() discards the error"))
+            elif info["argi"] > 0 or info["callee"] is None:
+                verdicts.append(("propagated", f"passed on to {ul}"))
+            else:
+                verdicts.append(("unrecognised", f"consumed by {un}"))
+        elif kind == "return":
+            verdicts.append(("propagated", "returned"))
+        elif kind == "discr":
+            verdicts.append(_match_verdict(b, us, l, depth))
+        elif kind == "moved":
+            verdicts.append(("propagated", "moved into a value that is returned/forwarded") if info else ("unrecognised", "moved"))
+    if any(v[0] != "no-switch" for v in verdicts):
+        verdicts = [v for v in verdicts if v[0] != "no-switch"]
+    else:
+        verdicts = [("unrecognised", v[1]) for v in verdicts]
+    if not verdicts:
+        return "dropped", "the Result is never looked at (let _ = .. / statement expression)"
+    worst = sorted(verdicts, key=lambda v: ORDER.index(v[0]))[0]
+    return worst
 
 
 def _uses_of(b, l, def_site):
@@ -118,7 +130,7 @@ def _uses_of(b, l, def_site):
     return uses
 
 
-def _match_verdict(b, dsite, l):
+def _match_verdict(b, dsite, l, depth=0):
     """the Result is matched: the Err arm must reach a return that carries an Err"""
     dl = b.at(dsite)["pl"]["l"]
     for bb in sorted(b.normal_blocks()):
@@ -141,6 +153,12 @@ def _match_verdict(b, dsite, l):
                         e = b._expr_of_def((s, k, p))
                         if e.k == "agg" and e.x.get("variant") == "Err":
                             return ("propagated", "match: Err arm returns Err(..)")
+            # the Err arm rebuilds an Err (possibly of a converted error) into another local, as the
+            # definition of map / map_err / and_then / an explicit match does: follow that local
+            for s2, st in b.sites():
+                if s2.i is not None and s2.bb in reg and st["s"] == "assign" and not st["pl"]["p"] and st["rv"]["rv"] == "agg" and st["rv"].get("variant") == "Err" and st["rv"].get("adt", "").endswith("result::Result"):
+                    v, d = _consume(b, st["pl"]["l"], s2, depth + 1)
+                    return (v, "match: Err arm rebuilds Err(..) -> " + d)
             return ("err-arm-swallowed", "the Err arm continues without returning an error (`if let Ok(..)` / `match .. { Err(_) => {} }`)")
     return ("no-switch", "discriminant read but no switch found")
 
@@ -161,3 +179,47 @@ def propagated(F, b, site):
     """the error of the call at `site` is propagated to the caller (`?`, returned, forwarded to a
     combinator whose result is itself propagated, or a match whose Err arm returns the error)"""
     return verdict_at(F, b, site) == "propagated"
+
+
+def err_chain(b, site):
+    """the conversions applied to the Err payload of the call at `site` before it is handed on:
+    callee names from the innermost to the outermost, e.g. ['into', 'convert_merge_error'];
+    [] when the error is passed on unchanged; None when the Err payload is never rebuilt"""
+
+    def descend(x, depth=0):
+        """list of chains (outermost first) through which x reaches `<call at site>@Err.0`"""
+        if depth > 14:
+            return []
+        xs = x
+        while xs.k in ("ref", "deref") or (xs.k == "cast" and xs.x.get("transparent")):
+            xs = xs.a[0]
+        if xs.k == "phi":
+            out = []
+            for c in xs.a:
+                out += descend(c, depth + 1)
+            return out
+        if xs.k == "field" and xs.x["name"] == "0" and xs.a[0].k == "downcast" and xs.a[0].x["variant"] == "Err":
+            src = xs.a[0].a[0]
+            while src.k in ("ref", "deref"):
+                src = src.a[0]
+            if src.k == "call" and src.x.get("site") == site:
+                return [[]]
+            if src.k == "phi":
+                return [[]] if any(c.strip().k == "call" and c.strip().x.get("site") == site for c in src.a) else []
+            return []
+        if xs.k == "call" and xs.a and xs.x.get("site") != site:
+            return [[xs.x["path"].rsplit("::", 1)[-1]] + ch for ch in descend(xs.a[0], depth + 1)]
+        return []
+
+    best = None
+    for s2, st in b.sites():
+        if s2.i is None or st["s"] != "assign" or st["rv"]["rv"] != "agg" or st["rv"].get("variant") != "Err":
+            continue
+        e = b._expr_of_def((s2, "assign", st["rv"]))
+        if not e.a:
+            continue
+        for ch in descend(e.a[0]):
+            ch = list(reversed(ch))
+            if best is None or len(ch) > len(best):
+                best = ch
+    return best
